@@ -15,9 +15,10 @@ def build_tree(rng, root, depth=0, maxn=5):
         p = os.path.join(root, n)
         k = rng.choice(['file', 'file', 'file', 'dir', 'dir', 'symlink', 'fifo', 'socket'] if depth < 3 else ['file', 'symlink'])
         if k == 'file':
+            size = rng.choice([0, 1, 10, 5000])
             with open(p, 'wb') as f:
-                f.write(b'x' * rng.choice([0, 1, 10, 5000]))
-            node = {'kind': 'file'}
+                f.write(b'x' * size)
+            node = {'kind': 'file', 'size': size}
         elif k == 'dir':
             os.mkdir(p)
             node = build_tree(rng, p, depth + 1, maxn)
@@ -68,12 +69,17 @@ def inject_fault(rng, nodes, top_path):
     if not cands:
         return None
     p, n = rng.choice(cands)
-    calls = {'file': ['lstat', 'open', 'fstat'], 'dir': ['lstat', 'opendir', 'readdir'], 'symlink': ['lstat', 'readlink']}[n['kind']]
+    calls = {'file': ['lstat', 'open', 'fstat'] + (['read'] if n.get('size', 0) > 0 else []), 'dir': ['lstat', 'opendir', 'readdir'], 'symlink': ['lstat', 'readlink']}[n['kind']]
     if p == top_path:
         calls = [c for c in calls if c != 'lstat' or True]
     call = rng.choice(calls)
     if call in n:
         return None     # one fault per (call, path): the interposer applies the first spec only
+    if call == 'read':
+        # an error while the file's bytes are read for the archive is fatal: the run aborts, nothing is published
+        n['read'] = 'other'
+        n['archive_ok'] = False
+        return 'read@%s=EIO' % p
     cls = rng.choice(['other', 'other', 'notFound', 'typeChange'])
     if cls == 'typeChange':
         if call not in TYPECHANGE:
@@ -324,4 +330,9 @@ def normalize_pair(mv, iv):
     for k in ('errors', 'warns'):
         g1, b1 = split(mv[k]); g2, b2 = split(iv[k])
         mv[k] = [g1, b1]; iv[k] = [g2, b2]
+    if mv['archived'] is None and iv.get('archived') is None:
+        # the run was aborted by a fatal error: which siblings were visited before it depends on the directory
+        # order, which the model does not fix; exit status, hooks, item-level errors and "nothing published" remain
+        for k in ('errors', 'warns'):
+            mv[k] = iv[k] = 'aborted-run'
     return mv, iv
